@@ -12,6 +12,7 @@ mod examples;
 mod ops;
 mod payload;
 mod ready;
+mod reader;
 mod registry;
 mod sources;
 mod stream;
@@ -146,6 +147,7 @@ fn main() {
         "attrs" => attrs::run(&args),
         "ops" => ops::run(&args),
         "ready" => ready::run(&args),
+        "reader" => reader::run(&args),
         "net" => net::run(&args),
         "util" => util::run(&args),
         "examples" => examples::run(&args),
